@@ -126,6 +126,11 @@ impl SocketWorker {
         validator: ConnectionValidator,
         mut priv_droppers: Vec<PrivilegeDropper>,
     ) -> anyhow::Result<()> {
+        #[cfg(aquatic_verif)]
+        if aquatic_common::verif::probe("udp/socket/start") {
+            return Ok(());
+        }
+
         let ring_entries = config.network.ring_size.next_power_of_two();
         // Try to fill up the ring with send requests
         let send_buffer_entries = ring_entries;
@@ -243,6 +248,11 @@ impl SocketWorker {
 
     fn run_inner(&mut self, ring: &mut IoUring) {
         loop {
+            #[cfg(aquatic_verif)]
+            if aquatic_common::verif::probe("udp/socket/loop") {
+                return;
+            }
+
             for sqe in self.resubmittable_sqe_buf.drain(..) {
                 unsafe { ring.submission().push(&sqe).unwrap() };
             }
